@@ -649,21 +649,24 @@ class Gen:
             return
         s = self.sessions[lseid]
         kinds = ["upd_far", "upd_far", "upd_far_em", "upd_far_em", "upd_qer", "add_pair", "rm_pair", "upd_pdr_prec", "upd_far_unknown",
-                 "cp_fseid", "upd_far_buffer"]
+                 "cp_fseid", "upd_far_buffer", "upd_far_mixed", "upd_far_mixed"]
         kind = kind or r.choice(kinds)
         ies, intent = [], {"op": "mod", "seq": seq, "req": P.SM_REQ, "wf": True, "lseid": lseid, "expect": "accept", "kind": kind,
                            "markers": [], "cp_seid_before": s["cp_seid"]}
         dl_fars = [f for f in s["fars"].values() if f["id"] % 2 == 0]
-        if kind in ("upd_far", "upd_far_em", "upd_far_buffer") and dl_fars:
-            n = r.choice([1, 1, 2])
+        if kind in ("upd_far", "upd_far_em", "upd_far_buffer", "upd_far_mixed") and dl_fars:
+            n = r.choice([1, 1, 2]) if kind != "upd_far_mixed" else r.choice([2, 3])
             for f in r.sample(dl_fars, min(n, len(dl_fars))):
                 old = copy.deepcopy(f)
-                if kind == "upd_far_buffer":
+                # mixed: several Update FARs of different shapes in one message (with / without Outer Header Creation)
+                if kind == "upd_far_buffer" or (kind == "upd_far_mixed" and r.random() < 0.5):
                     nf = {"id": f["id"], "action": 12, "fwd": {}}
                 else:
                     nf = {"id": f["id"], "action": 2, "fwd": {"dst_if": 0, "ohc": (self._teid(), ip(192, 168, r.randrange(4, 8), r.randrange(1, 250)))}}
                     if kind == "upd_far_em":
                         nf["fwd"]["smflags"] = r.choice([2, 2, 3, 1])
+                if r.random() < 0.3:
+                    nf["perm"] = r.randrange(1, 1 << 30)
                 ies.append(far_ie(P.UPDATE_FAR, nf))
                 if nf.get("fwd", {}).get("smflags", 0) & 2:
                     oo = ref_far(old, lseid)
